@@ -126,8 +126,9 @@ theorem rotAngles_real (r : Vec3 ℝ) :
       else if 0 < Real.sqrt (1 - r.z * r.z) then
         (if 0 < Real.sqrt (r.x * r.x + r.y * r.y) then
           (Real.sqrt (1 - r.z * r.z), r.x / Real.sqrt (r.x * r.x + r.y * r.y),
-           r.y / Real.sqrt (r.x * r.x + r.y * r.y))
-         else (Real.sqrt (1 - r.z * r.z), 1, 0))
+           Real.sqrt (1 - r.x / Real.sqrt (r.x * r.x + r.y * r.y)
+                          * (r.x / Real.sqrt (r.x * r.x + r.y * r.y))))
+         else (0, 1, 0))
       else (Real.sqrt (1 - r.z * r.z), 1, 0) := by
   unfold rotAngles
   opt_simp
@@ -154,15 +155,27 @@ theorem rotAngles_spec (r : Vec3 ℝ) (h : isUnit r) :
     have hpos : 0 < s := lt_of_lt_of_le (by norm_num) hb1
     have hi : 1 / s * s = 1 := one_div_mul_cancel (ne_of_gt hpos)
     linear_combination (1 / s * (1 / s)) * hxy - (1 / s * (1 / s)) * hst + (1 / s * s + 1) * hi
-  · -- near the axis: cosφ, sinφ from the x/y components normalised by rho > 0
+  · -- near the axis, rho > 0: cosφ = x/rho, sinφ := +sqrt(1 − cos²φ)
     refine ⟨by simp only []; linarith, ?_, hst0⟩
     simp only []
     have hq : 0 < r.x * r.x + r.y * r.y := Real.sqrt_pos.mp hrho
     have hsq : Real.sqrt (r.x * r.x + r.y * r.y) * Real.sqrt (r.x * r.x + r.y * r.y)
         = r.x * r.x + r.y * r.y := Real.mul_self_sqrt (le_of_lt hq)
-    rw [div_mul_div_comm, div_mul_div_comm, hsq, ← add_div, div_self (ne_of_gt hq)]
-  · -- near the axis with rho = 0 (impossible for an exactly unit rot; the code picks φ = 0)
-    refine ⟨by simp only []; linarith, by simp, hst0⟩
+    set c := r.x / Real.sqrt (r.x * r.x + r.y * r.y) with hc
+    have hc1 : c * c ≤ 1 := by
+      have : c * c = r.x * r.x / (r.x * r.x + r.y * r.y) := by
+        rw [hc, div_mul_div_comm, hsq]
+      rw [this, div_le_one hq]
+      nlinarith [mul_self_nonneg r.y]
+    have := Real.mul_self_sqrt (show (0:ℝ) ≤ 1 - c * c by linarith)
+    linarith
+  · -- near the axis with rho = 0: treated as exactly on the axis (sinθ := 0); for a unit rot
+    -- rho = 0 forces rot_z² = 1
+    have hq0 : r.x * r.x + r.y * r.y = 0 := by
+      have hle : Real.sqrt (r.x * r.x + r.y * r.y) ≤ 0 := not_lt.mp hrho
+      have h0 := Real.sqrt_eq_zero'.mp (le_antisymm hle (Real.sqrt_nonneg _))
+      nlinarith [mul_self_nonneg r.x, mul_self_nonneg r.y]
+    refine ⟨by simp only []; linarith, by simp, le_refl _⟩
   · -- on the axis
     refine ⟨by simp only []; linarith, by simp, hst0⟩
 
@@ -202,19 +215,26 @@ theorem rotateRaw_vdot_pole (d r : Vec3 ℝ) (h : isUnit r) :
   simp only [vdot]
   linear_combination (d.z) * h1 + (st * (r.z * d.x + st * d.z)) * h2
 
-/-- the image of the z axis is `rot` itself, in every branch -/
-theorem poleImage_eq (r : Vec3 ℝ) (h : isUnit r) : poleImage r = r := by
+/-- which branch of `rotate` is the near-axis one: 0 < sinθ < min_accurate_sintheta -/
+def nearAxis (r : Vec3 ℝ) : Prop :=
+  0 < Real.sqrt (1 - r.z * r.z) ∧ Real.sqrt (1 - r.z * r.z) < (5 / 1000 : ℝ)
+
+attribute [local instance] Classical.propDecidable in
+/-- the pole image is `rot` itself in the far-from-axis and on-axis branches; in the near-axis
+    branch it is (rot_x, |rot_y|, rot_z): the sign of rot_y is lost -/
+theorem poleImage_eq (r : Vec3 ℝ) (h : isUnit r) :
+    poleImage r = ⟨r.x, if nearAxis r then |r.y| else r.y, r.z⟩ := by
   have hz := isUnit_z_le r h
   have hst : Real.sqrt (1 - r.z * r.z) * Real.sqrt (1 - r.z * r.z) = 1 - r.z * r.z :=
     Real.mul_self_sqrt (by linarith)
   have hst0 : 0 ≤ Real.sqrt (1 - r.z * r.z) := Real.sqrt_nonneg _
   have hxy : r.x * r.x + r.y * r.y = 1 - r.z * r.z := by
     unfold isUnit vdot at h; linarith
-  unfold poleImage
+  unfold poleImage nearAxis
   rw [rotAngles_real]
   by_cases hb1 : (5 / 1000 : ℝ) ≤ Real.sqrt (1 - r.z * r.z)
   · -- far from the axis
-    rw [if_pos hb1]
+    rw [if_pos hb1, if_neg (fun hn => absurd hn.2 (not_lt.mpr hb1))]
     have hpos : 0 < Real.sqrt (1 - r.z * r.z) := lt_of_lt_of_le (by norm_num) hb1
     have hne : Real.sqrt (1 - r.z * r.z) ≠ 0 := ne_of_gt hpos
     apply vec3_ext <;> simp only []
@@ -223,13 +243,23 @@ theorem poleImage_eq (r : Vec3 ℝ) (h : isUnit r) : poleImage r = r := by
   · rw [if_neg hb1]
     by_cases hb2 : 0 < Real.sqrt (1 - r.z * r.z)
     · -- near the axis: rho = sinθ > 0
+      have hna : 0 < Real.sqrt (1 - r.z * r.z) ∧ Real.sqrt (1 - r.z * r.z) < 5 / 1000 :=
+        ⟨hb2, not_le.mp hb1⟩
+      rw [hxy]
+      simp only [if_pos hb2, if_pos hna]
+      have h1z : 0 < 1 - r.z * r.z := by rw [← hst]; exact mul_pos hb2 hb2
       have hne : Real.sqrt (1 - r.z * r.z) ≠ 0 := ne_of_gt hb2
-      rw [if_pos hb2, hxy, if_pos hb2]
       apply vec3_ext <;> simp only []
       · exact mul_div_cancel₀ r.x hne
-      · exact mul_div_cancel₀ r.y hne
+      · have hc : r.x / Real.sqrt (1 - r.z * r.z) * (r.x / Real.sqrt (1 - r.z * r.z))
+            = r.x * r.x / (1 - r.z * r.z) := by rw [div_mul_div_comm, hst]
+        have hyy : 1 - r.x * r.x / (1 - r.z * r.z) = r.y * r.y / (1 - r.z * r.z) := by
+          rw [eq_div_iff (ne_of_gt h1z), sub_mul, div_mul_cancel₀ _ (ne_of_gt h1z)]
+          linarith
+        rw [hc, hyy, Real.sqrt_div' _ (le_of_lt h1z), Real.sqrt_mul_self_eq_abs]
+        exact mul_div_cancel₀ |r.y| hne
     · -- on the axis: sinθ = 0, hence rot_x = rot_y = 0
-      rw [if_neg hb2]
+      rw [if_neg hb2, if_neg (fun hn => hb2 hn.1)]
       have hs0 : Real.sqrt (1 - r.z * r.z) = 0 := le_antisymm (not_lt.mp hb2) hst0
       have hq : r.x * r.x + r.y * r.y = 0 := by rw [hxy, ← hst, hs0]; ring
       have hx : r.x = 0 := by nlinarith [mul_self_nonneg r.x, mul_self_nonneg r.y]
